@@ -15,8 +15,6 @@ private def showNatRes : Except RbModel.Str.Err Nat → String
 
 private def showVal : Option RbModel.Str.VRes → String
   | none => "unmodelled"
-  | some (.integer k) => s!"(integer {k})"
-  | some (.long k) => s!"(long {k})"
   | some (.double neg m) => s!"(double {if neg then "t" else "f"} {m})"
 
 def handle (cmd : String) (args : List Sexp) : Option String :=
@@ -94,6 +92,25 @@ def handle (cmd : String) (args : List Sexp) : Option String :=
         | .ok l => match RbModel.Str.stringCode n 32 with
           | .error e => .error e
           | .ok r => .ok (RbModel.Str.concat (RbModel.Str.concat l [124]) r)))
+  | "str.rightmid", [s, n] => do
+      -- RIGHT$(s, n) + "|" + MID$(s, LEN(s) - n + 1)
+      let s ← s.nats?; let n ← n.int?
+      pure (showStrRes (match RbModel.Str.right s n with
+        | .error e => .error e
+        | .ok l => match RbModel.Str.mid s ((RbModel.Str.len s : Int) - n + 1) none with
+          | .error e => .error e
+          | .ok r => .ok (RbModel.Str.concat (RbModel.Str.concat l [124]) r)))
+  | "str.trimboth", [s] => do
+      -- LTRIM$(RTRIM$(s)) + "|" + RTRIM$(LTRIM$(s))
+      let s ← s.nats?
+      pure (showStrRes (.ok (RbModel.Str.concat (RbModel.Str.concat (RbModel.Str.ltrim (RbModel.Str.rtrim s)) [124])
+        (RbModel.Str.rtrim (RbModel.Str.ltrim s)))))
+  | "str.ucaselcase", [s] => do
+      let s ← s.nats?
+      pure (showStrRes (.ok (RbModel.Str.ucase (RbModel.Str.lcase s))))
+  | "str.strdbl", [k] => do
+      let k ← k.int?
+      pure (toString (Sexp.ofNats (RbModel.Str.strWholeFloat k)))
   | "str.valstr", [k] => do
       let k ← k.int?
       pure (showVal (RbModel.Str.val (RbModel.Str.strInt k)))
